@@ -74,7 +74,8 @@ def build(cfg, seed):
     else:
         system = get_system("planar", seed)
         n = cfg["npts"]
-        kl = [[0.05 + 0.9 * i / n, 0.13 * i, 0.0] for i in range(n)]
+        # points outside [0,1) too: TABresult stores k mod 1 and self_to_path must identify periodic images
+        kl = [[-0.35 + 1.7 * i / n, 0.13 * i - 0.2, 0.0] for i in range(n)]
         grid = wb.Path(system, k_list=kl)
     if cfg["calc"] == "scripted":
         calcs = {"scr": ScriptedCalc(salt=1)}
@@ -120,8 +121,14 @@ def cases(tier, seed):
     from wbmc.engine import quiet
     for cfg in configs(tier):
         ch = sched.Chooser([])
-        with quiet():
-            execute(cfg, seed, ch, tier)
+        try:
+            with quiet():
+                execute(cfg, seed, ch, tier)
+        except Exception:
+            pass          # the failure is reported by run_case of the default schedule
+        if not ch.trace:
+            yield {"cfg": cfg, "first": 0}
+            continue
         c, n, costs, label = ch.trace[0]
         for a in range(n):
             if BOUND[tier] is None or costs[a] <= BOUND[tier]:
